@@ -26,6 +26,27 @@ def case_strategy(tier, kinds, dims=(1, 2, 2, 2, 3), kmax=5, **kw):
     return s()
 
 
+def big_leaf_case(bdry=True):
+    """a single primitive (or its boundary) of size 50 - 400 within about one size of the origin, optionally
+    with parameter-dependent shape: absolute tolerances that are fine for unit-sized shapes show here."""
+    from hypothesis import strategies as st
+
+    @st.composite
+    def s(draw):
+        dim = draw(st.sampled_from([1, 2, 2, 2, 3]))
+        depv = {"p": (1, 0.0, 1.0)} if draw(st.booleans()) else {}
+        ctx = specs.Ctx(depv, 0.5 if depv else 0.0, False, False)
+        size = draw(specs.num(50, 400))
+        cen = [draw(specs.num(-1.2, 1.2)) * size for _ in range(dim)]
+        L = draw(specs.leaf(dim, ctx, (cen, size)).filter(lambda l: l["t"] not in ("poly", "mesh")))
+        E = {"t": "boundary", "a": L} if bdry and draw(st.integers(0, 3)) > 0 else L
+        fv = rg.free_vars(E)
+        prows = draw(specs.param_rows(set(fv), kmax=3, ks=(1, 2, 3))) if fv else {}
+        return {"dom": {"E": E, "kind": "boundary" if E is not L else "interior", "pvars": sorted(fv), "lattice": False, "far": False},
+                "prows": prows, "rng": draw(st.integers(0, 2 ** 31 - 1))}
+    return s()
+
+
 def nrows(prows):
     for v in prows.values():
         return len(v)
@@ -66,9 +87,9 @@ def is_plain(case):
             and nrows(case["prows"]) == 0 and E["t"] not in ("poly", "mesh"))
 
 
-def scale_of(E, penv):
-    """characteristic size: max(1, max |coordinate|, diameter) over the reference boxes."""
-    s = 1.0
+def scale_of(E, penv, floor=1.0):
+    """characteristic size: max(floor, max |coordinate|, diameter) over the reference boxes."""
+    s = floor
     for n in rg.walk(E):
         if n["t"] in rg.LEAVES and n["t"] != "point":
             pe = _penv_for(n, penv)
@@ -298,10 +319,10 @@ def min_feature(E, penv):
     return m
 
 
-def condition_number(E, penv):
+def condition_number(E, penv, floor=1.0):
     """position magnitude relative to the smallest feature: float32 coordinates carry an error
     of eps*scale, boundary tests of the library are relative to the shape size."""
-    return scale_of(E, penv) / max(min_feature(E, penv), 1e-12)
+    return scale_of(E, penv, floor) / max(min_feature(E, penv), 1e-12)
 
 
 def touching(E, penv, tol):
